@@ -9,11 +9,16 @@ Translates with `ast` (statements and expressions are parsed by shape, no pinned
       Prompt.on_end_trace    -> on_end_trace_body
       Prompt.prompt          -> prompt_body           (the lookup of the trace's queue, the loop, the assert, the comparison
                                                        of prompt numbers with ITS OPERATOR, continue / return)
-      relay_commands         -> fn_body (the inner fn), relay_thread_body (executor.submit(try_again_on_error, fn)),
-                                relay_shutdown
+      relay_commands         -> relay_commands_body (with ThreadPoolExecutor, the submit, try: yield finally: put(None),
+                                future.result() -- as a statement tree, interpreted), fn_body (the inner fn)
+      Prompt.context         -> prompt_context_body
       try_again_on_error     -> try_again_body
   nextline/spawned/plugin/plugins/pdb_/factory.py
       PromptFunc             -> prompt_func_body (_prompt_func), counter_start
+      PdbInstanceFactory, Factory -> pif_init_body, pif_create_body, factory_body (object wiring, Prompt/TieFactory.v)
+  nextline/spawned/plugin/plugins/repeat.py
+      Repeater.on_prompt     -> on_prompt_body (the generator that puts OnStartPrompt / OnEndPrompt on queue_out)
+  nextline/events.py         OnStartPrompt / OnEndPrompt: plain dataclasses (fields, __post_init__ shape)
   nextline/count.py          PromptNoCounter / CastedCounter -> counter_step
   nextline/spawned/commands.py  PdbCommand           -> pdb_command_fields
   nextline/plugin/plugins/session/session.py
@@ -32,11 +37,14 @@ into terms of coq/theories/Prompt/Syntax.v.  coq/theories/Prompt/Tie.v interpret
 Local variables are alpha-normalised ("<fn>.a<i>" parameters, "<fn>.l<i>" locals in the order of first
 binding), so renaming a local regenerates the same term.
 
-Fail closed: inside the translated functions every statement must either be recognised or be
-IGNORABLE: logging (`logger.xxx(...)`, `logger = getLogger(...)`, `self._logger.xxx(...)`), an `if` whose
-test has no call / walrus and whose branches are logging only, an `assert` of the truthiness of a plain
-name / attribute, a string assignment used for logging only, docstrings, `pass`.  Anything else raises
-PromptError and `./check C07` reports a broken tie obligation.
+Fail closed.  THE RULE for ignored positions: inside a translated function only `pass`, docstrings, logging
+statements (`logger.<level>(args)`, `self._logger.<level>(args)`, `logger = getLogger(args)` whose arguments contain no
+Call / NamedExpr / Await / Yield / Lambda / comprehension) and strings built for them are dropped.  `assert` and `if` are
+never dropped: they are translated (as a raising branch / a branch) or refused.  In the translated classes: no bases /
+decorators / class-level statements / special methods other than the expected ones; repo-wide: no assignment to an
+attribute of a translated name (`PdbCommand.__bool__ = ...`), no setattr on it, no second binding of a translated name in
+a translated module; prompt.py and commands.py have nothing at module level but imports, typing aliases and the
+translated definitions.  Anything else raises PromptError and `./check C07` reports a broken tie obligation.
 """
 from __future__ import annotations
 
@@ -123,58 +131,60 @@ def coq_str(s: str) -> str:
     return f'"{s}"'
 
 
+LOG_LEVELS = ('debug', 'info', 'warning', 'error', 'exception', 'critical', 'log')
+EFFECT = (ast.Call, ast.Await, ast.NamedExpr, ast.Yield, ast.YieldFrom, ast.Lambda, ast.ListComp, ast.SetComp, ast.DictComp,
+          ast.GeneratorExp)
+
+
 def is_logger_expr(n) -> bool:
     return is_name(n, 'logger') or is_attr_chain(n, ['self', '_logger'])
 
 
 def has_effect_nodes(n) -> bool:
-    return any(isinstance(x, (ast.Call, ast.Await, ast.NamedExpr, ast.Yield, ast.YieldFrom)) for x in ast.walk(n))
+    return any(isinstance(x, EFFECT) for x in ast.walk(n))
 
 
 def is_logging(st) -> bool:
-    """`logger.xxx(<no walrus>)`, `self._logger.xxx(...)`, `logger = getLogger(...)`, `msg = f'...'`"""
-    if any(isinstance(n, (ast.NamedExpr, ast.Await, ast.Yield, ast.YieldFrom)) for n in ast.walk(st)):
-        return False
+    """`logger.<level>(args)` / `self._logger.<level>(args)` / `logger = getLogger(args)`; the arguments are formatted
+    only: they contain no Call, NamedExpr, Await, Yield, Lambda, comprehension."""
     if isinstance(st, ast.Expr) and isinstance(st.value, ast.Call):
         f = st.value.func
-        if isinstance(f, ast.Attribute) and is_logger_expr(f.value):
-            # the arguments are formatted only: no call inside them except repr-like formatting
-            return not any(isinstance(x, ast.Call) for a in st.value.args + [k.value for k in st.value.keywords] for x in ast.walk(a))
+        if isinstance(f, ast.Attribute) and is_logger_expr(f.value) and f.attr in LOG_LEVELS:
+            return not any(has_effect_nodes(a) for a in st.value.args + [k.value for k in st.value.keywords])
     if isinstance(st, ast.Assign) and len(st.targets) == 1 and is_name(st.targets[0], 'logger'):
-        return isinstance(st.value, ast.Call) and is_name(st.value.func, 'getLogger')
+        v = st.value
+        return (isinstance(v, ast.Call) and is_name(v.func, 'getLogger')
+                and not any(has_effect_nodes(a) for a in v.args + [k.value for k in v.keywords]))
     return False
 
 
 def is_log_string(st, later) -> bool:
-    """`msg = f'...'` where msg is used afterwards by logging statements only"""
+    """`msg = f'...'` (no Call / NamedExpr / Await / Yield inside) where msg is read afterwards by logging statements only"""
     if not (isinstance(st, ast.Assign) and len(st.targets) == 1 and isinstance(st.targets[0], ast.Name)
             and isinstance(st.value, (ast.JoinedStr, ast.Constant)) and not has_effect_nodes(st.value)):
         return False
     if isinstance(st.value, ast.Constant) and not isinstance(st.value.value, str):
         return False
     name = st.targets[0].id
+    if name in ('logger', 'self', 'context'):
+        return False
+    used = False
     for s in later:
         uses = any(is_name(n, name) for n in ast.walk(s))
+        used = used or uses
         if uses and not is_logging(s):
             return False
-    return True
+    return used
 
 
 def ignorable(st, later=()) -> bool:
+    """THE RULE: only `pass`, docstrings, logging statements and strings built for them are dropped.  `assert` and `if`
+    are never dropped: they are translated (their tests must be in the expression language) or refused."""
     if isinstance(st, ast.Pass):
         return True
-    if isinstance(st, ast.Expr) and isinstance(st.value, ast.Constant):
+    if isinstance(st, ast.Expr) and isinstance(st.value, ast.Constant) and isinstance(st.value.value, str):
         return True
-    if is_logging(st) or is_log_string(st, later):
-        return True
-    if isinstance(st, ast.If):
-        return not has_effect_nodes(st.test) and all(is_logging(x) or isinstance(x, ast.Pass) for x in st.body + st.orelse)
-    if isinstance(st, ast.Assert):
-        t = st.test
-        while isinstance(t, ast.Attribute):
-            t = t.value
-        return isinstance(t, ast.Name)         # truthiness of an object
-    return False
+    return is_logging(st) or is_log_string(st, later)
 
 
 def seq(items: list[str]) -> str:
@@ -208,6 +218,15 @@ class Scope:
         self.hook_prompt = hook_prompt      # parameters of Prompt.prompt (after self): callable through hook.hook.prompt
         self.counter = counter              # name of the closure variable holding the prompt counter
         self.with_var = None                # name bound by `with (context := hook.with_.on_prompt(..))`
+        self.opaque: set[str] = set()       # locals holding an opaque value (their attributes are opaque reads)
+        self.generator = False              # the function is a generator (yield allowed)
+        self.executor = None                # name bound by `with ThreadPoolExecutor(max_workers=1) as <name>`
+        self.future = None                  # name bound by `<name> = executor.submit(...)`
+        self.fun_names: dict[str, str] = {} # names of translated functions usable as values -> fname
+        self.nested_fn: list | None = None  # collects the (one) nested `def` if allowed
+        self.relay_wiring: list | None = None   # collects the arguments of `with relay_commands(...)`
+        self.events: dict | None = None     # event class -> its dataclass fields (Repeater only)
+        self.on_prompt: list[str] | None = None   # parameters of Repeater.on_prompt (after self)
 
     def params(self) -> list[str]:
         return [v for v in self.vars.values() if v.rsplit('.', 1)[1].startswith('a')]
@@ -250,8 +269,12 @@ def tr_expr(n, sc: Scope, w: str) -> str:
             return 'ENone'
         if n.value is True or n.value is False:
             return f'(EBool {"true" if n.value else "false"})'
+        if n.value == '' and isinstance(n.value, str):
+            return 'EEmptyStr'
         raise PromptError(f'{w}: constant `{norm(n)}`')
     if isinstance(n, ast.Name):
+        if n.id in sc.fun_names and n.id not in sc.vars:
+            return f'(EFun {sc.fun_names[n.id]})'
         return sc.ref(n.id, w)
     if isinstance(n, ast.Attribute):
         ch = chain_of(n)
@@ -259,6 +282,10 @@ def tr_expr(n, sc: Scope, w: str) -> str:
             return sc.attrs[ch]
         if sc.context and ch == (sc.context, 'open_prompts'):
             return '(EAttr AOpenPrompts)'
+        if sc.context and ch == (sc.context, 'send_command'):
+            return '(EAttr ASendCommand)'
+        if isinstance(n.value, ast.Name) and n.value.id in sc.opaque and n.value.id in sc.vars:
+            return f'(EOpaqueOf {sc.ref(n.value.id, w)})'
         if n.attr in FIELDS:
             return f'(EField {tr_expr(n.value, sc, w)} {FIELDS[n.attr]})'
         raise PromptError(f'{w}: attribute `{norm(n)}` not recognised')
@@ -318,6 +345,28 @@ def tr_call_expr(n: ast.Call, sc: Scope, w: str) -> str:
         if set(vals) != set(fields):
             raise PromptError(f'{w}: `{norm(n)}` does not give the three fields')
         return '(EMkCmd ' + ' '.join(tr_expr(vals[x], sc, w) for x in fields) + ')'
+    if is_attr_chain(f, ['datetime', 'datetime', 'utcnow']) and not nargs and not nkw:
+        return '(EOpaque "utcnow")'
+    if is_attr_chain(f, ['self', '_hook', 'hook', 'current_trace_call_info']) and not nargs and not nkw:
+        return '(EOpaque "current_trace_call_info")'
+    if isinstance(f, ast.Name) and f.id in ('OnStartPrompt', 'OnEndPrompt') and sc.events:
+        need = ['trace_no', 'prompt_no'] + (['command'] if f.id == 'OnEndPrompt' else [])
+        if nargs:
+            raise PromptError(f'{w}: `{f.id}(...)` with positional arguments')
+        kws = {}
+        for k in n.keywords:
+            if k.arg is None or k.arg in kws:
+                raise PromptError(f'{w}: `{f.id}(...)`: keyword {k.arg}')
+            kws[k.arg] = k.value
+        if set(kws) != set(sc.events[f.id]):
+            raise PromptError(f'{w}: `{f.id}(...)` gives {sorted(kws)}, the dataclass has {sorted(sc.events[f.id])}')
+        for k, v in kws.items():          # the other keywords: pure reads (a name, an opaque value)
+            if k not in need:
+                e = tr_expr(v, sc, w)
+                if not e.startswith(('(EVar ', '(EOpaque ', '(EOpaqueOf ')):
+                    raise PromptError(f'{w}: `{f.id}(... {k}={norm(v)} ...)` is not a plain read')
+        ctor = 'EMkStartPrompt' if f.id == 'OnStartPrompt' else 'EMkEndPrompt'
+        return f'({ctor} ' + ' '.join(tr_expr(kws[x], sc, w) for x in need) + ')'
     if sc.counter and is_name(f, sc.counter) and not nargs and not nkw:
         return 'ECounterNext'
     if is_attr_chain(f, ['self', '_hook', 'hook', 'current_trace_no']) and not nargs and not nkw:
@@ -359,15 +408,18 @@ def hook_prompt_call(v, sc: Scope, w: str):
 
 
 def on_prompt_call(v, sc: Scope, w: str):
-    """hook.with_.on_prompt(prompt_no=E, text=...) -> E"""
+    """hook.with_.on_prompt(prompt_no=E, text=T) -> the arguments in the order of Repeater.on_prompt's parameters"""
     if not (isinstance(v, ast.Call) and is_attr_chain(v.func, ['hook', 'with_', 'on_prompt'])):
         return None
+    if sc.on_prompt is None:
+        raise PromptError(f'{w}: hook.with_.on_prompt entered here')
     if v.args:
         raise PromptError(f'{w}: `{norm(v)}`: hooks are called with keywords')
     kws = {k.arg: k.value for k in v.keywords}
-    if 'prompt_no' not in kws:
-        raise PromptError(f'{w}: `{norm(v)}` without prompt_no=')
-    return tr_expr(kws['prompt_no'], sc, w)
+    missing = [p for p in sc.on_prompt if p not in kws]
+    if missing:
+        raise PromptError(f'{w}: `{norm(v)}` does not pass {missing}')
+    return [tr_expr(kws[p], sc, w) for p in sc.on_prompt]
 
 
 def tr_stmt(st, sc: Scope, fn: str, later=()) -> str:
@@ -398,6 +450,15 @@ def tr_stmt(st, sc: Scope, fn: str, later=()) -> str:
             tmp = sc.bind(f'<return value of {v.func.id}()>')
             return f'(SSeq (SCall (Some {coq_str(tmp)}) (CVar {coq_str(sc.vars[v.func.id])}) []) (SReturn (EVar {coq_str(tmp)})))'
         return f'(SReturn {tr_expr(v, sc, w)})'
+    if isinstance(st, ast.Try) and st.finalbody:
+        if st.orelse or st.handlers:
+            raise PromptError(f'{w}: try statement with handlers AND finally')
+        return f'(STryFinally {tr_body(st.body, sc, fn)} {tr_body(st.finalbody, sc, fn)})'
+    if isinstance(st, ast.FunctionDef) and sc.nested_fn is not None:
+        if sc.nested_fn or st.decorator_list or argnames(st) or st.returns is None and False:
+            raise PromptError(f'{w}: nested function `{st.name}`')
+        sc.nested_fn.append(st)
+        return ''
     if isinstance(st, ast.Try):
         if st.orelse or st.finalbody or len(st.handlers) != 1:
             raise PromptError(f'{w}: try statement other than try/except with one handler')
@@ -419,15 +480,34 @@ def tr_stmt(st, sc: Scope, fn: str, later=()) -> str:
             if var is not None or not isinstance(it.optional_vars, ast.Name):
                 raise PromptError(f'{w}: with ... as ...')
             var = it.optional_vars.id
+        if isinstance(c, ast.Call) and is_name(c.func, 'ThreadPoolExecutor'):
+            mw = [k.value for k in c.keywords if k.arg == 'max_workers']
+            if c.args or len(c.keywords) != 1 or len(mw) != 1 or not (isinstance(mw[0], ast.Constant) and mw[0].value == 1 and type(mw[0].value) is int):
+                raise PromptError(f'{w}: `{norm(c)}` is not ThreadPoolExecutor(max_workers=1)')
+            if var is None or sc.executor is not None:
+                raise PromptError(f'{w}: executor not bound / nested executors')
+            sc.executor = var
+            b = tr_body(st.body, sc, fn)
+            sc.executor = None
+            return f'(SWithExecutor {b})'
+        if isinstance(c, ast.Call) and is_name(c.func, 'relay_commands') and sc.relay_wiring is not None:
+            if var is not None or c.keywords:
+                raise PromptError(f'{w}: `with {norm(it.context_expr)}`')
+            for a in c.args:
+                ch = chain_of(a)
+                if ch not in sc.attrs:
+                    raise PromptError(f'{w}: argument `{norm(a)}` of relay_commands')
+                sc.relay_wiring.append(sc.attrs[ch])
+            return f'(SWithGen GRelayCommands [] {tr_body(st.body, sc, fn)})'
         p = on_prompt_call(c, sc, w)
         if p is None:
-            raise PromptError(f'{w}: `with {norm(it.context_expr)}` is not hook.with_.on_prompt(...)')
+            raise PromptError(f'{w}: `with {norm(it.context_expr)}` not recognised')
         if sc.with_var is not None:
             raise PromptError(f'{w}: nested on_prompt contexts')
         sc.with_var = var
         b = tr_body(st.body, sc, fn)
         sc.with_var = None
-        return f'(SWithOnPrompt {p} {b})'
+        return f'(SWithGen GOnPrompt {coq_list(p)} {b})'
     if isinstance(st, ast.Delete):
         if len(st.targets) != 1 or not isinstance(st.targets[0], ast.Subscript):
             raise PromptError(f'{w}: `{norm(st)}`')
@@ -444,13 +524,33 @@ def tr_stmt(st, sc: Scope, fn: str, later=()) -> str:
                 return ''
         if isinstance(t, ast.Subscript):
             return f'(SSetItem {tr_expr(t.value, sc, w)} {tr_expr(t.slice, sc, w)} {tr_expr(v, sc, w)})'
+        if isinstance(t, ast.Name) and isinstance(v, ast.Yield) and v.value is None and sc.generator:
+            return f'(SYield (Some {coq_str(sc.bind(t.id))}))'
+        if isinstance(t, ast.Name) and sc.executor and is_call(v, [sc.executor, 'submit']):
+            if sc.future is not None or v.keywords or not v.args:
+                raise PromptError(f'{w}: `{norm(st)}`')
+            f0 = v.args[0]
+            if not (isinstance(f0, ast.Name) and f0.id in sc.fun_names):
+                raise PromptError(f'{w}: `{norm(st)}`: the submitted function is not a translated one')
+            sc.future = t.id
+            return f'(SSubmit {sc.fun_names[f0.id]} {coq_list([tr_expr(a, sc, w) for a in v.args[1:]])})'
         if isinstance(t, ast.Name):
             args = hook_prompt_call(v, sc, w)
             if args is not None:
                 return f'(SCall (Some {coq_str(sc.bind(t.id))}) (CFn FnPrompt) {coq_list(args)})'
             e = tr_expr(v, sc, w)
+            if e.startswith(('(EOpaque ', '(EOpaqueOf ')):
+                sc.opaque.add(t.id)
+            else:
+                sc.opaque.discard(t.id)
             return f'(SAssign {coq_str(sc.bind(t.id))} {e})'
         raise PromptError(f'{w}: assignment target `{norm(t)}`')
+    if isinstance(st, ast.Expr) and isinstance(st.value, ast.Yield):
+        if st.value.value is not None or not sc.generator:
+            raise PromptError(f'{w}: `{norm(st)}`')
+        return '(SYield None)'
+    if isinstance(st, ast.Expr) and sc.future and is_call(st.value, [sc.future, 'result']) and not st.value.args and not st.value.keywords:
+        return 'SFutureResult'
     if isinstance(st, ast.Expr):
         v = st.value
         aw = False
@@ -472,7 +572,7 @@ def tr_stmt(st, sc: Scope, fn: str, later=()) -> str:
                         return f'(SCall None (CFn FnSender) [{tr_expr(kws["command"], sc, w)}])'
                 raise PromptError(f'{w}: await `{norm(st)}` not recognised')
             if sc.context and is_attr_chain(f, [sc.context, 'send_command']) and nargs == 1 and not nkw:
-                return f'(SCall None (CFn FnSendCommand) [{tr_expr(v.args[0], sc, w)}])'
+                return f'(SCall None (CAttr ASendCommand) [{tr_expr(v.args[0], sc, w)}])'
             if sc.with_var and is_attr_chain(f, [sc.with_var, 'gen', 'send']) and nargs == 1 and not nkw:
                 return f'(SGenSend {tr_expr(v.args[0], sc, w)})'
             if isinstance(f, ast.Attribute) and not nkw:
@@ -514,14 +614,86 @@ def decorators(fn) -> list[str]:
     return [norm(d) for d in fn.decorator_list]
 
 
+DUNDERS = ('__aenter__', '__aexit__', '__enter__', '__exit__', '__bool__', '__len__', '__eq__', '__hash__', '__post_init__',
+           '__getattr__', '__getattribute__', '__setattr__', '__call__', '__new__', '__init_subclass__', '__class_getitem__',
+           '__repr__', '__str__', '__format__', '__iter__', '__contains__', '__getitem__', '__setitem__', '__delitem__',
+           '__ne__', '__lt__', '__le__', '__gt__', '__ge__')
+
+
+def check_class(cls, what: str, bases: list[str], decos: list[str], allow_init=False, allow_dunders=()):
+    """fail closed on: other bases / keywords / decorators; class-level statements that are not plain annotations or
+    docstrings (class-level defaults!); special methods that are not translated"""
+    if [norm(b) for b in cls.bases] != bases or cls.keywords:
+        raise PromptError(f'{what}: bases {[norm(b) for b in cls.bases]} (expected {bases})')
+    if [norm(d) for d in cls.decorator_list] != decos:
+        raise PromptError(f'{what}: decorators {[norm(d) for d in cls.decorator_list]} (expected {decos})')
+    for m in cls.body:
+        if isinstance(m, ast.Expr) and isinstance(m.value, ast.Constant) and isinstance(m.value.value, str):
+            continue
+        if isinstance(m, ast.Pass):
+            continue
+        if isinstance(m, ast.AnnAssign) and m.value is None and isinstance(m.target, ast.Name):
+            continue
+        if isinstance(m, FUNS):
+            if m.name.startswith('__') and m.name.endswith('__'):
+                if m.name == '__init__' and allow_init:
+                    continue
+                if m.name in allow_dunders:
+                    continue
+                raise PromptError(f'{what}.{m.name}: special method not translated')
+            continue
+        raise PromptError(f'{what}:{m.lineno}: class-level statement `{norm(m).splitlines()[0]}`')
+
+
+PROTECTED = {'PdbCommand', 'Command', 'Prompt', 'relay_commands', 'try_again_on_error', 'Queue', 'ThreadPoolExecutor',
+             'PromptFunc', 'Factory', 'PdbInstanceFactory', 'PromptNoCounter', 'CastedCounter', 'CommandSender', 'SendCommand',
+             'RunSession', 'OnEvent', 'Repeater', 'OnStartPrompt', 'OnEndPrompt', 'Context', 'StdInOut', 'CustomizedPdb',
+             'CmdloopHook', 'contextmanager', 'hookimpl', 'isinstance', 'defaultdict', 'dict', 'set', 'count'}
+TRANSLATED_MODULES = (SRC_PROMPT, SRC_FACTORY, SRC_COUNT, SRC_COMMANDS, SRC_SESSION, SRC_MONITOR, SRC_MAIN, SRC_IMP,
+                      'nextline/spawned/plugin/plugins/repeat.py', 'nextline/events.py', 'nextline/plugin/spec.py')
+
+
+def scan_rebinding(repo: Path):
+    """module-level (or any-level) monkeypatching / rebinding of a name the translation rests on, anywhere under nextline/"""
+    for p in sorted((repo / 'nextline').rglob('*.py')):
+        rel = str(p.relative_to(repo))
+        t = ast.parse(p.read_text())
+        binds: dict[str, int] = {}
+        for n in ast.walk(t):
+            # X.attr = ... / del X.attr / X.attr += ...   with X a protected name (e.g. PdbCommand.__bool__ = ...)
+            if isinstance(n, ast.Attribute) and isinstance(n.ctx, (ast.Store, ast.Del)) and isinstance(n.value, ast.Name) \
+                    and n.value.id in PROTECTED:
+                raise PromptError(f'{rel}:{n.lineno}: `{norm(n)}` is assigned (monkeypatch of a translated name)')
+            if isinstance(n, ast.Call) and isinstance(n.func, ast.Name) and n.func.id in ('setattr', 'delattr') and n.args \
+                    and isinstance(n.args[0], ast.Name) and n.args[0].id in PROTECTED:
+                raise PromptError(f'{rel}:{n.lineno}: `{norm(n)}` (monkeypatch of a translated name)')
+            if isinstance(n, ast.Call) and is_attr_chain(n.func, ['mock', 'patch']):
+                raise PromptError(f'{rel}:{n.lineno}: mock.patch in the package')
+            if rel in TRANSLATED_MODULES:
+                if isinstance(n, ast.Name) and isinstance(n.ctx, (ast.Store, ast.Del)) and n.id in PROTECTED:
+                    binds[n.id] = binds.get(n.id, 0) + 1
+                elif isinstance(n, (ast.FunctionDef, ast.AsyncFunctionDef, ast.ClassDef)) and n.name in PROTECTED:
+                    binds[n.name] = binds.get(n.name, 0) + 1
+                elif isinstance(n, (ast.Import, ast.ImportFrom)):
+                    for a in n.names:
+                        nm = (a.asname or a.name).split('.')[0]
+                        if nm in PROTECTED:
+                            binds[nm] = binds.get(nm, 0) + 1
+                elif isinstance(n, ast.arg) and n.arg in PROTECTED:
+                    binds[n.arg] = binds.get(n.arg, 0) + 1
+                elif isinstance(n, (ast.Global, ast.Nonlocal)) and set(n.names) & PROTECTED:
+                    raise PromptError(f'{rel}:{n.lineno}: `{norm(n)}`')
+        for nm, k in binds.items():
+            if k > 1:
+                raise PromptError(f'{rel}: `{nm}` is bound {k} times (rebinding of a translated name)')
+
+
 def child_side(repo: Path) -> dict:
     res = {}
     tp = parse(repo, SRC_PROMPT)
     cls = find(tp.body, ast.ClassDef, 'Prompt', SRC_PROMPT)
+    check_class(cls, 'Prompt', [], [], allow_init=True)
     members = {m.name: m for m in cls.body if isinstance(m, FUNS)}
-    for m in cls.body:
-        if not isinstance(m, FUNS) and not (isinstance(m, ast.Expr) and isinstance(m.value, ast.Constant)):
-            raise PromptError(f'Prompt:{m.lineno}: member `{norm(m).splitlines()[0]}` not recognised')
     known = {'__init__', 'init', 'context', 'on_start_trace', 'on_end_trace', 'prompt'}
     extra = set(members) - known
     if extra:
@@ -564,24 +736,17 @@ def child_side(repo: Path) -> dict:
     if init_map is None or not in_bound:
         raise PromptError('Prompt.init: _queue_map / _queue_in not initialised')
     res['init_queue_map'] = init_map
-    # context: with relay_commands(self._queue_in, self._queue_map): yield
+    # context: with relay_commands(self._queue_in, self._queue_map): yield   (a generator)
     f = members['context']
     if decorators(f) != ['hookimpl', 'contextmanager'] or argnames(f) != ['self']:
         raise PromptError('Prompt.context: decorators/parameters')
-    body = strip_doc(f.body)
-    ok = len(body) == 1 and isinstance(body[0], ast.With) and len(body[0].items) == 1 and body[0].items[0].optional_vars is None
-    call = body[0].items[0].context_expr if ok else None
-    ok = ok and isinstance(call, ast.Call) and is_name(call.func, 'relay_commands') and not call.keywords
-    ok = ok and len(body[0].body) == 1 and isinstance(body[0].body[0], ast.Expr) and isinstance(body[0].body[0].value, ast.Yield) \
-        and body[0].body[0].value.value is None
-    if not ok:
-        raise PromptError('Prompt.context is not `with relay_commands(...): yield`')
-    wiring = []
-    for a in call.args:
-        ch = chain_of(a)
-        if ch not in self_attrs:
-            raise PromptError(f'Prompt.context: argument `{norm(a)}` of relay_commands')
-        wiring.append(self_attrs[ch])
+    sc = Scope('ctx', [], attrs=self_attrs)
+    sc.generator = True
+    sc.relay_wiring = []
+    res['context'] = tr_body(f.body, sc, 'Prompt.context')
+    wiring = sc.relay_wiring
+    if res['context'].count('SWithGen GRelayCommands') != 1:
+        raise PromptError('Prompt.context does not enter relay_commands exactly once')
     # on_start_trace / on_end_trace (self, trace_no)
     for nm in ('on_start_trace', 'on_end_trace'):
         f = members[nm]
@@ -613,66 +778,25 @@ def child_side(repo: Path) -> dict:
     free = dict(zip(rparams, wiring))
     if sorted(free.values()) != ['(EAttr AQueueIn)', '(EAttr AQueueMap)']:
         raise PromptError(f'relay_commands: wiring {free}')
-    fn_def = None
-    submit = None
-    shutdown = None
-    yields = 0
-
-    def walk_relay(stmts, in_loop=False):
-        nonlocal fn_def, submit, shutdown, yields
-        for st in strip_doc(stmts):
-            w = where('relay_commands', st)
-            if isinstance(st, ast.FunctionDef):
-                if fn_def is not None or st.decorator_list or argnames(st):
-                    raise PromptError(f'{w}: nested function `{st.name}`')
-                fn_def = st
-            elif isinstance(st, ast.With):
-                for it in st.items:
-                    c = it.context_expr
-                    if not (isinstance(c, ast.Call) and is_name(c.func, 'ThreadPoolExecutor')):
-                        raise PromptError(f'{w}: with `{norm(c)}`')
-                    mw = [k.value for k in c.keywords if k.arg == 'max_workers']
-                    if c.args or len(mw) != 1 or not (isinstance(mw[0], ast.Constant) and mw[0].value == 1):
-                        raise PromptError(f'{w}: `{norm(c)}` is not ThreadPoolExecutor(max_workers=1)')
-                    if not (isinstance(it.optional_vars, ast.Name) and it.optional_vars.id == 'executor'):
-                        raise PromptError(f'{w}: with ... as `{norm(it.optional_vars) if it.optional_vars else None}`')
-                walk_relay(st.body)
-            elif isinstance(st, ast.Try):
-                if st.handlers or st.orelse:
-                    raise PromptError(f'{w}: try statement other than try/finally')
-                walk_relay(st.body)
-                walk_relay(st.finalbody)
-            elif isinstance(st, ast.Assign) and len(st.targets) == 1 and is_name(st.targets[0], 'future') \
-                    and is_call(st.value, ['executor', 'submit']):
-                c = st.value
-                if submit is not None or c.keywords or len(c.args) != 2 or fn_def is None:
-                    raise PromptError(f'{w}: `{norm(st)}`')
-                if not is_name(c.args[0], 'try_again_on_error') or not is_name(c.args[1], fn_def.name):
-                    raise PromptError(f'{w}: `{norm(st)}` is not executor.submit(try_again_on_error, {fn_def.name})')
-                submit = 'SCall None (CFn FnTryAgain) [EFun FnFn]'
-            elif isinstance(st, ast.Expr) and isinstance(st.value, ast.Yield) and st.value.value is None:
-                yields += 1
-            elif isinstance(st, ast.Expr) and is_call(st.value, ['future', 'result']) and not st.value.args:
-                pass
-            elif isinstance(st, ast.Expr) and isinstance(st.value, ast.Call) and isinstance(st.value.func, ast.Attribute) \
-                    and st.value.func.attr == 'put':
-                if shutdown is not None:
-                    raise PromptError(f'{w}: a second put in relay_commands')
-                shutdown = tr_stmt(st, Scope('relay', [], free=free), 'relay_commands')
-            elif ignorable(st):
-                pass
-            else:
-                raise PromptError(f'{w}: statement `{norm(st).splitlines()[0]}` not recognised')
-
-    walk_relay(f.body)
-    if fn_def is None or submit is None or yields != 1 or shutdown is None:
-        raise PromptError('relay_commands: fn / submit / yield / shutdown put missing')
-    if shutdown != '(SPut (EAttr AQueueIn) ENone)':
-        raise PromptError(f'relay_commands: the put of the finally clause is `{shutdown}`, not queue_in.put(None)')
+    sc = Scope('relay', [], free=free)
+    sc.generator = True
+    sc.nested_fn = []
+    sc.fun_names = {'try_again_on_error': 'FnTryAgain'}
+    # the nested def must come before its use: translate statement by statement
+    body = strip_doc(f.body)
+    out = []
+    for i, st in enumerate(body):
+        out.append(tr_stmt(st, sc, 'relay_commands', body[i + 1:]))
+        if sc.nested_fn and sc.nested_fn[0].name not in sc.fun_names:
+            sc.fun_names[sc.nested_fn[0].name] = 'FnFn'
+    res['relay_commands'] = seq(out)
+    if len(sc.nested_fn) != 1:
+        raise PromptError('relay_commands: expected exactly one nested function')
+    fn_def = sc.nested_fn[0]
+    if res['relay_commands'].count('SSubmit') != 1 or res['relay_commands'].count('(SYield None)') != 1:
+        raise PromptError('relay_commands: expected exactly one submit and one yield')
     sc = Scope('fn', [], free=free)
     res['fn'] = tr_body(fn_def.body, sc, 'relay_commands.fn')
-    res['relay_thread'] = submit
-    res['relay_shutdown'] = shutdown
     # try_again_on_error(func)
     f = find(tp.body, ast.FunctionDef, 'try_again_on_error', SRC_PROMPT)
     if f.decorator_list or len(argnames(f)) != 1:
@@ -696,12 +820,88 @@ def child_side(repo: Path) -> dict:
                    or (isinstance(n, (ast.FunctionDef, ast.ClassDef)) and n.name == nm) or (isinstance(n, ast.arg) and n.arg == nm)]
         if rebinds:
             raise PromptError(f'{SRC_PROMPT}:{rebinds[0].lineno}: `{nm}` is rebound')
-    # nothing else at module level uses the queues
+    # module level of prompt.py: imports, typing aliases, the class and the two functions -- nothing else
     for node in tp.body:
         if isinstance(node, FUNS) and node.name not in ('relay_commands', 'try_again_on_error'):
             raise PromptError(f'{SRC_PROMPT}:{node.lineno}: function `{node.name}` is not translated')
         if isinstance(node, ast.ClassDef) and node.name != 'Prompt':
             raise PromptError(f'{SRC_PROMPT}:{node.lineno}: class `{node.name}` is not translated')
+        if isinstance(node, (ast.Import, ast.ImportFrom, ast.ClassDef) + FUNS):
+            continue
+        if isinstance(node, ast.Expr) and isinstance(node.value, ast.Constant) and isinstance(node.value.value, str):
+            continue
+        if isinstance(node, ast.Assign) and len(node.targets) == 1 and isinstance(node.targets[0], ast.Name) \
+                and node.targets[0].id not in PROTECTED and (
+                    isinstance(node.value, ast.Subscript) or (isinstance(node.value, ast.Call) and is_name(node.value.func, 'TypeVar'))):
+            continue
+        raise PromptError(f'{SRC_PROMPT}:{node.lineno}: module-level statement `{norm(node).splitlines()[0]}`')
+    # ---- repeat.py: Repeater.on_prompt (the generator that puts OnStartPrompt / OnEndPrompt on queue_out)
+    SRC_REPEAT = 'nextline/spawned/plugin/plugins/repeat.py'
+    tr = parse(repo, SRC_REPEAT)
+    rep = find(tr.body, ast.ClassDef, 'Repeater', SRC_REPEAT)
+    check_class(rep, 'Repeater', [], [])
+    rmem = {m.name: m for m in rep.body if isinstance(m, FUNS)}
+    # init: self._queue_out = queue_out, self._run_no = run_arg.run_no
+    f = rmem.get('init')
+    if f is None or decorators(f) != ['hookimpl'] or 'queue_out' not in argnames(f):
+        raise PromptError('Repeater.init')
+    seen = set()
+    for st in strip_doc(f.body):
+        ok = isinstance(st, ast.Assign) and len(st.targets) == 1 and isinstance(st.targets[0], ast.Attribute) and is_name(st.targets[0].value, 'self')
+        if not ok:
+            raise PromptError(f'{where("Repeater.init", st)}: `{norm(st)}`')
+        a = st.targets[0].attr
+        if a in seen:
+            raise PromptError(f'Repeater.init: self.{a} assigned twice')
+        seen.add(a)
+        if a == '_queue_out' and not is_name(st.value, 'queue_out'):
+            raise PromptError(f'Repeater.init: `{norm(st)}`')
+        if a == '_hook' and not is_name(st.value, 'hook'):
+            raise PromptError(f'Repeater.init: `{norm(st)}`')
+        if has_effect_nodes(st.value):
+            raise PromptError(f'Repeater.init: `{norm(st)}`')
+    if not {'_queue_out', '_hook', '_run_no'} <= seen:
+        raise PromptError('Repeater.init does not set _queue_out / _hook / _run_no')
+    for nm, m in rmem.items():     # nobody else stores these, nobody else builds the two events
+        for n in ast.walk(m):
+            if nm != 'init' and isinstance(n, ast.Attribute) and isinstance(n.ctx, (ast.Store, ast.Del)) and n.attr in ('_queue_out', '_hook', '_run_no'):
+                raise PromptError(f'Repeater.{nm}:{n.lineno}: self.{n.attr} is assigned')
+            if nm != 'on_prompt' and isinstance(n, ast.Name) and n.id in ('OnStartPrompt', 'OnEndPrompt'):
+                raise PromptError(f'Repeater.{nm}:{n.lineno}: builds {n.id}')
+    # the two event classes: plain dataclasses; __post_init__ only asserts a naive datetime
+    tev = parse(repo, 'nextline/events.py')
+    evfields = {}
+    for cn in ('OnStartPrompt', 'OnEndPrompt'):
+        c = find(tev.body, ast.ClassDef, cn, 'events.py')
+        check_class(c, cn, ['Event'], ['dataclass'], allow_dunders=('__post_init__',))
+        evfields[cn] = [m.target.id for m in c.body if isinstance(m, ast.AnnAssign)]
+        for m in c.body:
+            if isinstance(m, FUNS):
+                b = strip_doc(m.body)
+                ok = m.name == '__post_init__' and len(b) == 1 and isinstance(b[0], ast.Expr) and isinstance(b[0].value, ast.Call) \
+                    and is_name(b[0].value.func, '_assert_naive_datetime') and len(b[0].value.args) == 1 and not b[0].value.keywords \
+                    and isinstance(b[0].value.args[0], ast.Attribute) and is_name(b[0].value.args[0].value, 'self') \
+                    and b[0].value.args[0].attr in ('started_at', 'ended_at')
+                if not ok:
+                    raise PromptError(f'{cn}.{m.name}: not `_assert_naive_datetime(self.<x>_at)`')
+        if not {'trace_no', 'prompt_no'} <= set(evfields[cn]):
+            raise PromptError(f'{cn}: fields {evfields[cn]}')
+    evbase = find(tev.body, ast.ClassDef, 'Event', 'events.py')
+    check_class(evbase, 'Event', [], ['dataclass'])
+    f = rmem.get('on_prompt')
+    if f is None or decorators(f) != ['hookimpl', 'contextmanager'] or argnames(f)[:1] != ['self'] or f.args.defaults:
+        raise PromptError('Repeater.on_prompt: decorators/parameters')
+    on_prompt_params = argnames(f)[1:]
+    if sorted(on_prompt_params) != ['prompt_no', 'text']:
+        raise PromptError(f'Repeater.on_prompt: parameters {on_prompt_params}')
+    sc = Scope('op', on_prompt_params, attrs={('self', '_queue_out'): '(EAttr AQueueOut)', ('self', '_run_no'): '(EOpaque "run_no")'})
+    sc.generator = True
+    sc.events = evfields
+    res['on_prompt'] = tr_body(f.body, sc, 'Repeater.on_prompt')
+    res['on_prompt_params'] = sc.params()
+    impls = hookimpls_named(repo, CHILD_PLUGINS, 'on_prompt')
+    if len(impls) != 1:
+        raise PromptError(f'the hook `on_prompt` has {len(impls)} implementations: {impls}')
     # ---- factory.py: PromptFunc
     tf = parse(repo, SRC_FACTORY)
     f = find(tf.body, ast.FunctionDef, 'PromptFunc', SRC_FACTORY)
@@ -732,16 +932,84 @@ def child_side(repo: Path) -> dict:
     if counter is None or inner is None or not is_name(returned, inner.name):
         raise PromptError('PromptFunc: counter / inner function / return missing')
     sc = Scope('pf', argnames(inner), hook_prompt=prompt_params, counter=counter)
+    sc.on_prompt = on_prompt_params
     # `text` is passed through to the hooks only
     res['prompt_func'] = tr_body(inner.body, sc, f'PromptFunc.{inner.name}')
     res['prompt_func_params'] = sc.params()
     res['counter_start'] = start
-    # the one PromptFunc is shared by all Pdb instances: Factory creates it once, outside _factory
+    # ---- factory.py: the object wiring (PdbInstanceFactory.init / create_local_trace_func, Factory)
+    KNOWN_NEW = ('Factory', 'PromptFunc', 'CmdloopHook', 'StdInOut', 'CustomizedPdb')
+
+    def tr_w(n, w) -> str:
+        if isinstance(n, ast.Name):
+            return f'(WVar {coq_str(n.id)})'
+        if isinstance(n, ast.Attribute):
+            if is_name(n.value, 'self'):
+                return f'(WSelf {coq_str(n.attr)})'
+            return f'(WAttr {tr_w(n.value, w)} {coq_str(n.attr)})'
+        if isinstance(n, ast.Call):
+            if isinstance(n.func, ast.Name) and n.func.id in KNOWN_NEW:
+                if n.args or any(k.arg is None for k in n.keywords):
+                    raise PromptError(f'{w}: `{norm(n)}`: keywords only')
+                kw = '; '.join(f'({coq_str(k.arg)}, {tr_w(k.value, w)})' for k in n.keywords)
+                return f'(WNew {coq_str(n.func.id)} [{kw}])'
+            if not n.args and not n.keywords:
+                return f'(WCallVal {tr_w(n.func, w)})'
+        raise PromptError(f'{w}: expression `{norm(n)}` not recognised')
+
+    def tr_wbody(stmts, fn, depth=0) -> str:
+        out = []
+        for st in strip_doc(stmts):
+            w = where(fn, st)
+            if isinstance(st, ast.Assign) and len(st.targets) == 1:
+                t = st.targets[0]
+                if isinstance(t, ast.Name):
+                    out.append(f'WAssign {coq_str(t.id)} {tr_w(st.value, w)}')
+                    continue
+                if isinstance(t, ast.Attribute) and is_name(t.value, 'self'):
+                    out.append(f'WSetSelf {coq_str(t.attr)} {tr_w(st.value, w)}')
+                    continue
+                if isinstance(t, ast.Attribute) and isinstance(t.value, ast.Name):
+                    if t.attr in ('_prompt', 'prompt_func', 'stdin', 'stdout', 'trace_dispatch'):
+                        raise PromptError(f'{w}: `{norm(st)}` stores to an attribute the wiring theorem reads')
+                    out.append(f'WSetAttr {coq_str(t.value.id)} {coq_str(t.attr)} {tr_w(st.value, w)}')
+                    continue
+            if isinstance(st, ast.FunctionDef) and depth == 0 and not st.decorator_list and not argnames(st):
+                out.append(f'WDef {coq_str(st.name)} {tr_wbody(st.body, fn + "." + st.name, depth + 1)}')
+                continue
+            if isinstance(st, ast.Return) and st.value is not None:
+                out.append(f'WReturn {tr_w(st.value, w)}')
+                continue
+            raise PromptError(f'{w}: statement `{norm(st).splitlines()[0]}` not recognised')
+        return coq_list(out)
+
+    pif = find(tf.body, ast.ClassDef, 'PdbInstanceFactory', SRC_FACTORY)
+    check_class(pif, 'PdbInstanceFactory', [], [])
+    pm = {m.name: m for m in pif.body if isinstance(m, FUNS)}
+    if set(pm) != {'init', 'create_local_trace_func'}:
+        raise PromptError(f'PdbInstanceFactory: members {sorted(pm)}')
+    if decorators(pm['init']) != ['hookimpl'] or argnames(pm['init']) != ['self', 'hook'] \
+            or decorators(pm['create_local_trace_func']) != ['hookimpl'] or argnames(pm['create_local_trace_func']) != ['self']:
+        raise PromptError('PdbInstanceFactory: decorators/parameters')
+    res['pif_init'] = tr_wbody(pm['init'].body, 'PdbInstanceFactory.init')
+    res['pif_create'] = tr_wbody(pm['create_local_trace_func'].body, 'PdbInstanceFactory.create_local_trace_func')
     fac = find(tf.body, ast.FunctionDef, 'Factory', SRC_FACTORY)
-    outer = [st for st in fac.body if isinstance(st, ast.Assign) and isinstance(st.value, ast.Call) and is_name(st.value.func, 'PromptFunc')]
-    nested = [n for st in fac.body if isinstance(st, FUNS) for n in ast.walk(st) if isinstance(n, ast.Call) and is_name(n.func, 'PromptFunc')]
-    if len(outer) != 1 or nested:
-        raise PromptError('Factory: PromptFunc(...) is not created exactly once outside the per-trace factory (the counter would not be run-unique)')
+    if argnames(fac) != ['hook'] or fac.decorator_list or fac.args.defaults:
+        raise PromptError('Factory: parameters')
+    res['factory'] = tr_wbody(fac.body, 'Factory')
+    impls = hookimpls_named(repo, CHILD_PLUGINS, 'create_local_trace_func')
+    if len(impls) != 1:
+        raise PromptError(f'the hook `create_local_trace_func` (first result) has {len(impls)} implementations: {impls}')
+    # stream.py: StdInOut keeps the prompt function it is given and calls it, nothing else binds _prompt_func
+    tst = parse(repo, 'nextline/spawned/plugin/plugins/pdb_/stream.py')
+    sio = find(tst.body, ast.ClassDef, 'StdInOut', 'stream.py')
+    stores = [n for n in ast.walk(sio) if isinstance(n, ast.Attribute) and isinstance(n.ctx, ast.Store) and n.attr == '_prompt']
+    init = [m for m in sio.body if isinstance(m, ast.FunctionDef) and m.name == '__init__']
+    ok = len(stores) == 1 and len(init) == 1 and any(
+        isinstance(st, ast.Assign) and st.targets[0] is stores[0] and is_name(st.value, 'prompt_func') for st in init[0].body)
+    calls = [n for n in ast.walk(sio) if isinstance(n, ast.Call) and is_attr_chain(n.func, ['self', '_prompt'])]
+    if not ok or len(calls) != 1 or 'prompt_func' not in argnames(init[0]):
+        raise PromptError('StdInOut does not keep `prompt_func` in self._prompt and call it in exactly one place')
     # ---- count.py
     tc = parse(repo, SRC_COUNT)
     f = find(tc.body, ast.FunctionDef, 'PromptNoCounter', SRC_COUNT)
@@ -776,6 +1044,9 @@ def main_side(repo: Path) -> dict:
     ts = parse(repo, SRC_SESSION)
     # CommandSender.send_command(self, context, command)
     cls = find(ts.body, ast.ClassDef, 'CommandSender', SRC_SESSION)
+    check_class(cls, 'CommandSender', [], [])
+    if [m.name for m in cls.body if isinstance(m, FUNS)] != ['send_command']:
+        raise PromptError('CommandSender: members other than send_command')
     f = find(cls.body, ast.AsyncFunctionDef, 'send_command', 'CommandSender')
     if decorators(f) != ['hookimpl'] or argnames(f) != ['self', 'context', 'command']:
         raise PromptError(f'CommandSender.send_command: decorators/parameters {argnames(f)}')
@@ -798,7 +1069,10 @@ def main_side(repo: Path) -> dict:
     res['send_command_params'] = sc.params()
     # RunSession.run: the statements that touch queue_in / send_command / open_prompts, in source order
     rs = find(ts.body, ast.ClassDef, 'RunSession', SRC_SESSION)
+    check_class(rs, 'RunSession', [], [])
     run = find(rs.body, ast.AsyncFunctionDef, 'run', 'RunSession')
+    if [norm(d) for d in run.decorator_list] != ['hookimpl', 'contextlib.asynccontextmanager'] or argnames(run) != ['self', 'context']:
+        raise PromptError('RunSession.run: decorators/parameters')
     tracked: list[str] = []
     pos = {}
 
@@ -887,6 +1161,14 @@ def main_side(repo: Path) -> dict:
     for node in rs.body:
         if node is not run and any(isinstance(n, ast.Attribute) and n.attr == 'open_prompts' for n in ast.walk(node)):
             raise PromptError(f'RunSession:{node.lineno}: open_prompts used outside run()')
+    # context.send_command is assigned in RunSession.run only
+    for p in sorted((repo / 'nextline').rglob('*.py')):
+        t = ast.parse(p.read_text())
+        for n in ast.walk(t):
+            if isinstance(n, ast.Attribute) and n.attr == 'send_command' and isinstance(n.ctx, (ast.Store, ast.Del)):
+                inside = str(p.relative_to(repo)) == SRC_SESSION and run.lineno <= n.lineno <= run.end_lineno
+                if not inside:
+                    raise PromptError(f'{p.relative_to(repo)}:{n.lineno}: `{norm(n)}` is assigned outside RunSession.run')
     # open_prompts is used nowhere else in the main process
     users = []
     for p in sorted((repo / 'nextline').rglob('*.py')):
@@ -902,6 +1184,12 @@ def main_side(repo: Path) -> dict:
     # spec.py: the field and its default
     tspec = parse(repo, 'nextline/plugin/spec.py')
     ctx = find(tspec.body, ast.ClassDef, 'Context', 'plugin/spec.py')
+    sc_fld = [st for st in ctx.body if isinstance(st, ast.AnnAssign) and is_name(st.target, 'send_command')]
+    if len(sc_fld) != 1 or not (isinstance(sc_fld[0].value, ast.Constant) and sc_fld[0].value.value is None):
+        raise PromptError('Context.send_command does not default to None')
+    if [norm(d) for d in ctx.decorator_list] != ['dataclasses.dataclass'] or ctx.bases or any(
+            isinstance(m, FUNS) for m in ctx.body):
+        raise PromptError('Context is not a plain dataclasses.dataclass without methods')
     fld = [st for st in ctx.body if isinstance(st, ast.AnnAssign) and is_name(st.target, 'open_prompts')]
     ok = len(fld) == 1 and isinstance(fld[0].value, ast.Call) and is_attr_chain(fld[0].value.func, ['dataclasses', 'field']) and not fld[0].value.args
     kws = {k.arg: k.value for k in fld[0].value.keywords} if ok else {}
@@ -928,6 +1216,7 @@ def main_side(repo: Path) -> dict:
     # monitor.py
     tm = parse(repo, SRC_MONITOR)
     oe = find(tm.body, ast.ClassDef, 'OnEvent', SRC_MONITOR)
+    check_class(oe, 'OnEvent', [], [])
     f = find(oe.body, ast.AsyncFunctionDef, 'on_event_in_process', SRC_MONITOR)
     if argnames(f) != ['self', 'context', 'event']:
         raise PromptError('on_event_in_process: parameters')
@@ -993,8 +1282,11 @@ def main_side(repo: Path) -> dict:
 def pdb_fields(repo: Path) -> list[str]:
     t = parse(repo, SRC_COMMANDS)
     c = find(t.body, ast.ClassDef, 'PdbCommand', SRC_COMMANDS)
-    if [norm(d) for d in c.decorator_list] != ['dataclass']:
-        raise PromptError('PdbCommand is not a plain @dataclass')
+    check_class(c, 'PdbCommand', ['Command'], ['dataclass'])
+    check_class(find(t.body, ast.ClassDef, 'Command', SRC_COMMANDS), 'Command', [], ['dataclass'])
+    for node in t.body:           # module level of commands.py: imports and the two classes
+        if not isinstance(node, (ast.Import, ast.ImportFrom, ast.ClassDef)) and not (isinstance(node, ast.Expr) and isinstance(node.value, ast.Constant)):
+            raise PromptError(f'{SRC_COMMANDS}:{node.lineno}: module-level statement `{norm(node).splitlines()[0]}`')
     fields = []
     for st in strip_doc(c.body):
         if isinstance(st, ast.AnnAssign) and isinstance(st.target, ast.Name) and st.value is None:
@@ -1020,6 +1312,7 @@ def pdb_fields(repo: Path) -> list[str]:
 def translate(repo: Path) -> str:
     repo = Path(repo)
     global PDB_FIELDS
+    scan_rebinding(repo)
     PDB_FIELDS = pdb_fields(repo)
     ch = child_side(repo)
     mn = main_side(repo)
@@ -1058,9 +1351,20 @@ def translate(repo: Path) -> str:
         f'Definition try_again_params : list string := {strs(ch["try_again_params"])}.',
         f'Definition try_again_body : stmt :=\n  {ch["try_again"]}.',
         '',
-        '(** relay_commands: future = executor.submit(try_again_on_error, fn) in a one-worker pool; finally: queue_in.put(None) *)',
-        f'Definition relay_thread_body : stmt := {ch["relay_thread"]}.',
-        f'Definition relay_shutdown : stmt := {ch["relay_shutdown"]}.',
+        '(** relay_commands(queue_in, queue_map), @contextmanager: the pool, the submit, try: yield finally: the sentinel, the result *)',
+        f'Definition relay_commands_body : stmt :=\n  {ch["relay_commands"]}.',
+        '',
+        '(** Prompt.context(), @contextmanager *)',
+        f'Definition prompt_context_body : stmt := {ch["context"]}.',
+        '',
+        '(** Repeater.on_prompt(prompt_no, text), @contextmanager: OnStartPrompt, the two yields, finally: OnEndPrompt *)',
+        f'Definition on_prompt_params : list string := {strs(ch["on_prompt_params"])}.',
+        f'Definition on_prompt_body : stmt :=\n  {ch["on_prompt"]}.',
+        '',
+        '(** pdb_/factory.py: PdbInstanceFactory.init(hook) / create_local_trace_func(), Factory(hook) *)',
+        f'Definition pif_init_body : list wstmt := {ch["pif_init"]}.',
+        f'Definition pif_create_body : list wstmt := {ch["pif_create"]}.',
+        f'Definition factory_body : list wstmt :=\n  {ch["factory"]}.',
         '',
         '(** PromptFunc._prompt_func(text); counter = PromptNoCounter(counter_start), one per run *)',
         f'Definition prompt_func_params : list string := {strs(ch["prompt_func_params"])}.',
